@@ -208,13 +208,30 @@ def fd_unit(ctx, src):
 def path_unit(ctx, src):
     u = Unit(ctx, 'path')
     u.raw('#include "stubs/C14_str.h"\n')
-    RF = Rule(r"filename\.rfind\(", 'c14_rfind(filename, ', count=1, regex=True)
-    u.function(src, CC, r'string basename\(const std::string& filename\)', new_header='void phosg_basename(vstr* ret, const vstr* filename)',
-               rules=[RF, Rule(r'return \((\w+) == string::npos\) \? filename : filename\.substr\(([^;,]+)\);',
-                               r'{ if (\1 == C14_NPOS) { c14_copy(ret, filename); } else { c14_substr(ret, filename, \2, C14_NPOS); } return; }', count=1, regex=True)])
-    u.function(src, CC, r'string dirname\(const std::string& filename\)', new_header='void phosg_dirname(vstr* ret, const vstr* filename)',
-               rules=[RF, Rule(r'return \((\w+) == string::npos\) \? "" : filename\.substr\(([^;,]+), ([^;,]+)\);',
-                               r'{ if (\1 == C14_NPOS) { vstr_clear(ret); } else { c14_substr(ret, filename, \2, \3); } return; }', count=1, regex=True)])
+    RF = Rule(r"filename\.rfind\(", 'c14_rfind(filename, ', count='+', regex=True)
+    NP = Rule('string::npos', 'C14_NPOS', count=None)
+    # the returned std::string expression, whatever statement form carries it: a conditional expression is split into its two arms; an arm is
+    # "" (empty), the parameter itself (copy), or filename.substr(pos[, n])
+    def arm(e):
+        e = e.strip()
+        if e in ('""', 'string()', 'std::string()'):
+            return 'vstr_clear(ret);'
+        if e == 'filename':
+            return 'c14_copy(ret, filename);'
+        mo = re.fullmatch(r'filename\.substr\(([^,()]+(?:\([^()]*\))?[^,()]*)(?:,\s*(.+))?\)', e, re.S)
+        if mo:
+            return 'c14_substr(ret, filename, %s, %s);' % (mo.group(1).strip(), (mo.group(2) or 'C14_NPOS').strip())
+        raise ExtractionBreak('basename/dirname: unsupported returned expression %r' % e)
+
+    def ret_stmt(mo):
+        e = mo.group(1).strip()
+        c = re.fullmatch(r'\((.+?)\)\s*\?\s*(.+?)\s*:\s*(filename\.substr\(.*\)|filename|"")', e, re.S)
+        if c:
+            return '{ if (%s) { %s } else { %s } return; }' % (c.group(1), arm(c.group(2)), arm(c.group(3)))
+        return '{ %s return; }' % arm(e)
+    RET = Rule(r'\breturn ([^;]+);', ret_stmt, count='+', regex=True)
+    u.function(src, CC, r'string basename\(const std::string& filename\)', new_header='void phosg_basename(vstr* ret, const vstr* filename)', rules=[RF, RET, NP])
+    u.function(src, CC, r'string dirname\(const std::string& filename\)', new_header='void phosg_dirname(vstr* ret, const vstr* filename)', rules=[RF, RET, NP])
     return u
 
 
